@@ -364,18 +364,24 @@ def parse_trace(text):
             continue
         c = l[0]
         if c == 'I':
-            cur = Step(); cur.iline = l; f = l.split(); cur.i = int(f[1]); cur.op = f[4]; cur.events = ev; ev = []
+            f = l.split()
+            if len(f) < 6 or ' | k ' not in l:
+                continue                               # cut short by a crash
+            cur = Step(); cur.iline = l; cur.i = int(f[1]); cur.op = f[4]; cur.events = ev; ev = []
             cur.stack = cur.frames = None; cur.live = None; cur.v = []
             steps.append(cur)
         elif c in 'AF':
             ev.append(l)
         elif c == 'S' and cur is not None:
-            f = l.split()
-            cur.stack, cur.frames = int(f[2]), int(f[3])
-            cur.live = {}
-            for t in f[4:]:
-                o, tag, rc, ind = t.split(':')
-                cur.live[int(o)] = (int(tag), int(rc), int(ind))
+            try:
+                f = l.split()
+                live = {}
+                for t in f[4:]:
+                    o, tag, rc, ind = t.split(':')
+                    live[int(o)] = (int(tag), int(rc), int(ind))
+                cur.stack, cur.frames, cur.live = int(f[2]), int(f[3]), live
+            except (ValueError, IndexError):
+                pass                                   # line cut short by a crash of the probed VM
         elif c == 'V':
             vl.append(l)
             if cur is not None: cur.v.append(l)
@@ -488,6 +494,7 @@ class Runner:
         res.update(steps=steps, v=vl, e=el, x=xl, d=dl)
         if rc not in (0, 1, 10):
             res['status'] = 'crash'
+            res['last'] = steps[-1].iline if steps else None
             return res
         res['vm_error'] = any(l.split()[1] != '0' for l in el)
         res['leaks'] = leak_events(steps)
@@ -508,7 +515,15 @@ def judge(ck, R, res, src_text, kind):
         return False
     rep = dict(program=src_text, source_kind=kind, name=name)
     if res['status'] == 'crash':
-        ck.fail('c14:crash:' + name, 'heap_trace died (rc=%s) on %s' % (res['rc'], name), dict(rep, stderr=res['stderr'], engine='heap_trace'))
+        lastop = (res.get('last') or '? ? ? ? ?').split()[4]
+        if res['v']:
+            vst = res['v'][0].split()[1]
+            vop = next((s.op for s in res['steps'] if str(s.i) == vst), lastop)
+            ck.fail('c14:audit:%s:%s' % (res['v'][0].split()[2], vop), 'heap audit on the real VM: %s (then the VM crashed, rc=%s)' % (res['v'][0], res['rc']),
+                    dict(rep, violation=res['v'][:5], stderr=res['stderr'], engine='heap_trace audit'))
+        else:
+            ck.fail('c14:crash:' + lastop, 'real VM crashed / sanitizer report (rc=%s) after %s' % (res['rc'], res.get('last')),
+                    dict(rep, stderr=res['stderr'], last_instruction=res.get('last'), engine='heap_trace'))
         return True
     failed = False
     steps = res['steps']
@@ -581,7 +596,11 @@ def churn_check(ck, R):
 
 def run(ck):
     R = Runner(ck)
-    ck.gen(['gen_churn14'])
+    try:
+        ck.gen(['gen_churn14'])
+    except Exception as ex:
+        ck.note('translator gen_churn14 failed: %s' % str(ex)[-300:])
+        ck.proof['broken'].append('translator gen_churn14: %s' % str(ex)[-200:])
     proved = ck.prove()
     progs = []
     # 1. corpus first
